@@ -445,6 +445,50 @@ impl<T: Send + Sync + 'static> Probe<T> {
         });
         if matches!(ms, M::Hs | M::Data(_)) {
             self.react(MK::from(&ms));
+        } else if ms.is_terminal() && with(|ex| ex.cfg.cross_dispose && ex.cfg.max_probes >= 2 && ex.cross_depth == 0) {
+            // a sink that has just been told the end may still act on OTHER subscriptions: dispose
+            // a sibling sink, attach a new one (up to two such actions inside the terminal handler)
+            for round in 0..2 {
+                let menu = with(|ex| {
+                    let mut m = vec![opt::NOTHING];
+                    for (q, qs) in ex.probes.iter().enumerate() {
+                        if q != p as usize && qs.can_act() {
+                            m.push(opt::DISPOSE_OTHER0 + q as u8);
+                        }
+                    }
+                    let nsub = ex.probes.iter().filter(|x| x.subscribed).count();
+                    if nsub < ex.cfg.max_probes as usize {
+                        m.push(opt::SUBSCRIBE_NEXT);
+                    }
+                    m
+                });
+                if menu.len() < 2 {
+                    break;
+                }
+                let mk = MK::from(&ms);
+                let what = if round == 0 { What::React(p, mk) } else { What::React2(p, mk) };
+                match choose_opt(Kind::Dev, what, &menu) {
+                    opt::NOTHING => break,
+                    opt::SUBSCRIBE_NEXT => {
+                        let q = with(|ex| ex.probes.iter().filter(|x| x.subscribed).count()) as u8;
+                        let f = world().borrow().subscribe.clone();
+                        if let Some(f) = f {
+                            with(|ex| ex.cross_depth += 1);
+                            rec(Ev::Send(Actor::Probe(q), M::Hs));
+                            f(q);
+                            rec(Ev::Ret(Actor::Probe(q)));
+                            with(|ex| ex.cross_depth -= 1);
+                        }
+                    },
+                    c => {
+                        if let Some(d) = probe_driver(c - opt::DISPOSE_OTHER0) {
+                            with(|ex| ex.cross_depth += 1);
+                            d.act(opt::TERM);
+                            with(|ex| ex.cross_depth -= 1);
+                        }
+                    },
+                }
+            }
         } else if ms == M::Term && with(|ex| ex.cfg.pull_after_end && !ex.probes[p as usize].sent_terminal) {
             // C15: "every pattern of Pull": also a Pull from inside the completion handler
             if choose_opt(Kind::Dev, What::React(p, MK::Term), &[opt::NOTHING, opt::PULL]) == opt::PULL {
